@@ -168,6 +168,10 @@ parsec_insert_dtd_flush_task(parsec_dtd_task_t *this_task, parsec_dtd_tile_t *ti
         if( parsec_dtd_task_is_local( last_writer.task ) ) {
             /* every time we have a remote_task as descendant of a local task */
             parsec_dtd_remote_task_retain( this_task );
+        } else if( TASK_IS_ALIVE == last_user.alive && NULL != last_user.task &&
+                   last_user.task != last_writer.task && parsec_dtd_task_is_local(last_user.task) ) {
+            /* remote flush task chained behind a local reader of a remote writer: see parsec_insert_dtd_task */
+            parsec_dtd_remote_task_retain( this_task );
         }
     }
 
